@@ -15,17 +15,17 @@ CLAIMED = {
     "C04": dict(
         text="Kernel-level bounded model checking: the functions the property is anchored in (FType::to_node_mask, Segment::apply_seg_mods, SubRule::match_feat_mod/match_node_mod/match_node/match_seg_kind/match_modifiers, Syllable::apply_seg_mods) are executed symbolically for every one of the 2^40 feature bundles (2^80 for donor x target alpha shapes) per generated matrix shape and compared with a bit-level reference model written from the property text. One harness per shape (26 features, 8 nodes, feature pairs, alpha capture->apply/match pairs through the real HashMap). The scan loop of whole-rule application is outside the claim.",
         ref="DESIGN.md section 3, C04",
-        note=BASE + "Bounds: unwind FType::count()+2, hashbrown/SipHash loops bounded to 3 by --unwindset with unwinding assertions on; matrices of 1 and 2 named features. [±place] matching assumes the C08 bundle invariant."),
+        note=BASE + "Bounds: harness-wide unwind 8, loops of the crate's own sources FType::count()+2, hashbrown/SipHash loops 3 (all by --unwindset from this build's loop ids, unwinding assertions on); matrices of 1 and 2 named features; a later MATCH against an already bound alpha exhausts memory and is outside. [±place] matching assumes the C08 bundle invariant."),
     "C05": dict(
-        text="Kernel-level bounded model checking of the manual's three-way tables: SubRule::match_supr_mod_seg/match_seg_length/match_stress/match_tone and Syllable::apply_supras/apply_syll_mods/replace_segment are run on syllables of concrete shape (run length 1..3, first/middle/last) with symbolic bundles, stress, all u16 tones and all 9 {absent,+,-}^2 modifier combinations per table, and compared with 40 lines of reference tables; set-then-match, frame and error cases are asserted. The cursor defect quoted in the property lives in whole-rule application and is outside what these kernels can see.",
+        text="Kernel-level bounded model checking of the manual's three-way tables: SubRule::match_supr_mod_seg/match_seg_length/match_stress/match_tone and Syllable::apply_supras/apply_syll_mods/replace_segment (plus SubRule::input_match_ipa for length modifiers on an IPA input element) are run on syllables of concrete shape (run length 1..3, first/middle/last) with symbolic bundles, stress, all u16 tones and all 9 {absent,+,-}^2 modifier combinations per table, and compared with 40 lines of reference tables; set-then-match, frame and error cases are asserted. The cursor defect quoted in the property lives in whole-rule application and is outside what these kernels can see.",
         ref="DESIGN.md section 3, C05",
         note=BASE + "Assumed: the run differs from its neighbours (the property's side condition). The full 9-row set table is decided on concrete pairwise-distinct bundles; single rows are decided for all bundles."),
     "C07": dict(
         text="Kernel-level bounded model checking of capture -> write-back pairs of real functions on the same element: feature alphas (match_seg_kind then apply_seg_mods), node alphas (match_node then apply_seg_mods), stress/length alphas (match_stress/match_seg_length then apply_syll_mods/apply_supras), segment variables (context_match_matrix/input_match_matrix store, context_match_var compares) -- all through the real hashbrown map -- asserting identity for every bundle/state. Known finding: a single stress alpha cannot carry secondary stress.",
         ref="DESIGN.md section 3, C07",
-        note=BASE + "Bounds: unwind FType::count()+2; hashbrown/SipHash loops bounded to 3 (unwinding assertions on). Variable write-back in substitution/insertion outputs, syllable variables and structures are outside (whole-rule application)."),
+        note=BASE + "Bounds: harness-wide unwind 8, crate loops FType::count()+2, hashbrown/SipHash loops 3 (unwinding assertions on). Variable write-back in substitution/insertion outputs, syllable variables and structures are outside (whole-rule application)."),
     "C08": dict(
-        text="Inductive step for the feature-bundle clause: from ANY bundle satisfying the invariant (no stray bits, no payload under an absent sub-node, empty place absent) one real mutator runs (apply_seg_mods for every one-slot matrix and node+feature pairs, set_feat/set_node in range, each of the 32 diacritics of diacritics.json) and the invariant is asserted afterwards; base case: all 365 bundles of cardinals.json. The syllable-count and tone clauses are outside (transform/concat_tone exhaust memory under CBMC).",
+        text="Inductive step for the feature-bundle clause: from ANY bundle satisfying the invariant (no stray bits, no payload under an absent sub-node, empty place absent) one real mutator runs (apply_seg_mods for every one-slot matrix and node+feature pairs, set_feat/set_node in range, each of the 32 diacritics of diacritics.json, node/place/feature alphas bound by the real matcher on a well-formed donor) and the invariant is asserted afterwards; base case: all 365 bundles of cardinals.json. The syllable-count and tone clauses are outside (transform/concat_tone exhaust memory under CBMC).",
         ref="DESIGN.md section 3, C08",
         note=BASE + "The invariant Inv in harness/common.rs is my reading of the property's last clause. That rule sequences only compose these mutators is argued from the code, not decided."),
     "C12": dict(
@@ -33,13 +33,13 @@ CLAIMED = {
         ref="DESIGN.md section 3, C12",
         note="Trusted: Kani/CBMC/CaDiCaL; the manual's lines are the specification; ref_match_set in harness/common.rs. No stubs. Unwind FType::count()+4."),
     "C14": dict(
-        text="Per-syllable mechanism (syll.rs:107-215): a segment-only output (one-slot feature matrix, [-node], plain IPA replacement) applied to one position leaves segment count, neighbours, stress and tone untouched for all bundles; a prosody-only output (all 9 stress combinations, optional tone; also routed through a long segment) leaves every segment bit-identical. Boundary insertion/deletion/metathesis are outside (transform does not finish under CBMC).",
+        text="Per-syllable mechanism (syll.rs:107-215): a segment-only output (one-slot feature matrix, [-node], plain IPA replacement) applied to one position leaves segment count, neighbours, stress and tone untouched for all bundles; a prosody-only output (all 9 stress combinations, optional tone; also routed through a short, long and overlong segment) leaves every segment bit-identical. Boundary insertion/deletion/metathesis are outside (transform does not finish under CBMC).",
         ref="DESIGN.md section 3, C14",
         note=BASE + "Assumed: the modified segment differs from its neighbours."),
     "C03": dict(
-        text="Environment-selection kernel: SubRule::match_before_env / match_after_env / context_match (#, $, IPA, one-slot matrix) with SegPos::increment/reversed and Word::reverse are executed on words of 3-4 segments in every syllabification with all word and context bundles symbolic, and compared with a straight-line reference walk emitted per shape (left neighbours right-to-left, right neighbours left-to-right, # past the edge, $ at a syllable edge). The scan, input matching and rewrite of whole-rule application are outside.",
+        text="Environment-selection kernel: SubRule::match_before_env / match_after_env / context_match (#, $, IPA segments) and context_match_set (two-alternative sets) with SegPos::increment/reversed are executed on words of 3-4 segments in every syllabification with all word and context bundles symbolic, and compared with a straight-line reference walk emitted per shape (left neighbours right-to-left, right neighbours left-to-right, # past the edge, $ at a syllable edge). The scan, input matching and rewrite of whole-rule application are outside.",
         ref="DESIGN.md section 3, C03",
-        note=BASE + "Shapes are a seeded stratified draw plus 12 fixed regression shapes; the combinator match_contexts_and_exceptions itself is not encoded (recombined in the harness). Assumed: neighbouring segments inside a syllable are distinct."),
+        note=BASE + "Shapes are 14 fixed regression shapes plus a seeded stratified draw; the combinator match_contexts_and_exceptions and Word::reverse are not encoded (the harness builds the reversed word by hand and recombines the halves: Vec<Syllable>::clone exhausts memory under CBMC); matrices as environment elements are out of reach (> 40 min per shape). Assumed: neighbouring segments inside a syllable are distinct."),
 }
 
 NOT_APPLICABLE = {
@@ -48,10 +48,10 @@ NOT_APPLICABLE = {
     "C06": "needs whole-rule application (SubRule::apply -> input_match_at -> transform), which does not finish under CBMC even for `a > b` on three segments",
     "C09": "get_as_grapheme / Word::render / Word::setup iterate lazy_static tables (365 cardinals, 32 diacritics), sort by a symbolic key and grow Strings under symbolic guards: out of CBMC's reach",
     "C10": "composition through rendered text: renderer + word parser + whole-rule application, none of which is encodable",
-    "C11": "a statement about asca::run end to end (parsing, whole-rule application, rendering); the reachable fragment (the lib.rs loops) is claimed under C16 and says nothing about binding leaks",
+    "C11": "a statement about asca::run end to end (parsing, whole-rule application, rendering); the only fragment that could be driven in isolation (the two loop nests of lib.rs) does not finish under CBMC either (Vec<Syllable>::clone exhausts memory, see C16) and says nothing about binding leaks",
     "C13": "synonym tables live in the two lexers (to_lowercase + 171-arm string match) and in parser follow-sets over token vectors; neither finishes symbolically",
     "C15": "alias lexer/parser + Word::render with romanisers + fill_segments: Strings and lazy_static tables throughout",
-    "C16": "tried and withdrawn: the two loop nests of lib.rs were driven for real under Kani with Rule::apply stubbed by a solver-chosen table, but Phrase/Word/Syllable clone followed by == (VecDeque::clone leaves a symbolic ring-buffer layout that == then has to case-split) exhausts 14 GB or 40 min even for one word and one rule, also with Syllable::clone stubbed; by the decision rule of DESIGN.md (minimal shape must finish in 5 min) it is not applicable",
+    "C16": "tried and withdrawn: the two loop nests of lib.rs were driven for real under Kani with Rule::apply stubbed by a solver-chosen table, but Phrase/Word/Syllable clone followed by == exhausts 14 GB or 40 min even for one word and one rule, also with Syllable::clone stubbed (micro-probe: Vec<Syllable>::clone of ONE syllable alone exhausts 14 GB); by the decision rule of DESIGN.md (minimal shape must finish in 5 min) it is not applicable",
     "C17": "error positions are produced by the lexers/parser and consumed by format!/String::repeat with symbolic counts",
     "C19": "behaviour of the asca binary: files, clap, stdout, serde_json",
     "C20": "project trees on disk, config lexer/parser calling is_file()/parse_rsca, process exit status",
